@@ -132,6 +132,7 @@ type ModuleSvcSpec struct {
 // RigConfig fixes the in-memory (non-store) configuration of the service keeper for a scenario.
 type RigConfig struct {
 	ReentrantStartSiblings bool     // ... by starting its other (paused) contexts
+	ReentrantCapSiblings   bool     // ... by lowering the fee cap of its other contexts to 1 (it has learnt that money is short)
 	ReentrantCreate        bool     // the other module answers a failed batch (response callback with an error) by creating a follow-up context
 	ReentrantPauseSiblings bool     // the other module answers "paused: insufficient balances" of one context by pausing its other contexts
 	ReentrantSelfKill      bool     // the other module answers a failed batch (response callback with an error) by killing that very context
@@ -211,6 +212,7 @@ type Rig struct {
 	handler sdk.Handler
 	querier sdk.Querier
 	cfg     RigConfig
+	baseFP  string // fingerprint of the keeper's in-memory containers right after construction (keepermem.go)
 }
 
 const ModOther = "othermod" // the "other module" played by the driver
@@ -337,6 +339,22 @@ func NewRig(cfg RigConfig) *Rig {
 					}
 				}
 			}
+			if cfg.ReentrantCapSiblings {
+				var others [][]byte
+				var recs []servicetypes.RequestContext
+				r.sk.IterateRequestContexts(ctx, func(oid tmbytes.HexBytes, oc servicetypes.RequestContext) bool {
+					if oc.ModuleName == mod && !bytes.Equal(oid, id) {
+						others = append(others, append([]byte{}, oid...))
+						recs = append(recs, oc)
+					}
+					return false
+				})
+				for i := range others {
+					if r.sk.UpdateRequestContext(ctx, others[i], nil, 0, sdk.NewCoins(sdk.NewInt64Coin(denom, 1)), 0, 0, 0, recs[i].Consumer) == nil {
+						rec.log = append(rec.log, CallbackRec{Kind: "cap1", Ctx: hexs(others[i]), BatchCounter: recs[i].BatchCounter})
+					}
+				}
+			}
 			if cfg.ReentrantPauseSiblings {
 				var others [][]byte
 				var recs []servicetypes.RequestContext
@@ -383,6 +401,7 @@ func NewRig(cfg RigConfig) *Rig {
 
 	r.handler = service.NewHandler(r.sk)
 	r.querier = servicekeeper.NewQuerier(r.sk, amino)
+	r.baseFP = keeperFingerprint(r.sk)
 	return r
 }
 
